@@ -1,6 +1,6 @@
 (* C09 - proofs about Ports/WalkModel.v *)
 From Coq Require Import List ZArith Bool Arith Lia.
-From RtoscV Require Import Ports.MetaModel Ports.NameModel Ports.PathModel Ports.WalkModel.
+From RtoscV Require Import Match.PatSpec Match.MatchModel Ports.MetaModel Ports.NameModel Ports.PathModel Ports.WalkModel.
 Import ListNotations.
 Local Open Scope Z_scope.
 
